@@ -47,6 +47,10 @@ struct RunCfg {
     hash_seed: u64,
     verbose: bool,
     real_rayon: bool,
+    /// explicit scheduler decision string (replaces the seeded draws; decisions past its end
+    /// default to "inline"): set when a violation is narrowed, shortened by the minimiser
+    #[serde(default)]
+    sched_replay: Option<String>,
 }
 
 #[derive(Clone, Debug, Serialize, Deserialize, PartialEq)]
@@ -351,11 +355,12 @@ impl Check for C19Check {
                 hash_seed: r.next_u64() >> 1,
                 verbose: r.chance(1, 3),
                 real_rayon: false,
+                sched_replay: None,
             })
             .collect();
         if tier == Tier::Thorough && index % 4 == 0 {
             // stub-fidelity cross-check on real threads
-            cfgs.push(RunCfg { argv_seed: r.next_u64(), threads: *r.pick(&[1u32, 2, 5, 16]), sched_seed: 0, hash_seed: r.next_u64() >> 1, verbose: false, real_rayon: true });
+            cfgs.push(RunCfg { argv_seed: r.next_u64(), threads: *r.pick(&[1u32, 2, 5, 16]), sched_seed: 0, hash_seed: r.next_u64() >> 1, verbose: false, real_rayon: true, sched_replay: None });
         }
         let file_fault = if index % 7 == 3 {
             Some(match r.below(3) {
@@ -487,23 +492,38 @@ impl Check for C19Check {
             s.cfgs = cfgs;
             Some(serde_json::to_value(s).unwrap())
         };
+        let with_trace = |cfg: &RunCfg, d: &Option<String>| {
+            let mut c = cfg.clone();
+            if c.sched_replay.is_none() && !c.real_rayon {
+                c.sched_replay = d.clone();
+            }
+            c
+        };
         // ---- alpha-g-vertices under the configured schedules
         let mut tails: Vec<(usize, Vec<u8>)> = Vec::new();
+        // scheduler decision strings of the runs (the replayable schedule trace)
+        let mut decisions: Vec<Option<String>> = vec![None; scn.cfgs.len()];
         for (ci, cfg) in scn.cfgs.iter().enumerate() {
             let argv: Vec<_> = Rng::new(cfg.argv_seed).perm(paths.len()).into_iter().map(|k| paths[k].clone()).collect();
             let slog = scratch.dir.join(format!("sched{ci}.log"));
+            let sreplay = cfg.sched_replay.as_ref().map(|d| {
+                let p = scratch.dir.join(format!("sched{ci}.replay"));
+                std::fs::write(&p, d).expect("write schedule replay");
+                p
+            });
             let env = RunEnv {
                 sched_seed: Some(cfg.sched_seed),
                 hash_seed: Some(cfg.hash_seed),
                 threads: Some(cfg.threads),
                 sched_log: if cfg.real_rayon { None } else { Some(slog.clone()) },
-                sched_replay: None,
+                sched_replay: sreplay,
                 real_rayon: cfg.real_rayon,
             };
             let extra: Vec<&str> = if cfg.verbose { vec!["--verbose"] } else { vec![] };
             stats.executions += 1;
             let res = run_binary("alpha-g-vertices", &scratch.dir, &argv, &extra, &format!("vtx{ci}"), &env);
             if let Ok(s) = std::fs::read_to_string(&slog) {
+                decisions[ci] = Some(s.trim().to_string());
                 let mut h = H64::new();
                 h.str(&s).u64(cfg.threads as u64);
                 stats.schedule(h.finish());
@@ -575,7 +595,7 @@ impl Check for C19Check {
                 }
             });
             if let Some((sig, detail)) = bad {
-                viol.push(Violation { invariant: format!("C19.rows-{}", sig.split(':').nth(1).unwrap_or("x")), signature: sig, detail, narrowed: mk_narrow(vec![cfg.clone()]) });
+                viol.push(Violation { invariant: format!("C19.rows-{}", sig.split(':').nth(1).unwrap_or("x")), signature: sig, detail, narrowed: mk_narrow(vec![with_trace(cfg, &decisions[ci])]) });
                 continue;
             }
             tails.push((ci, csv_tail(&csv)));
@@ -587,7 +607,7 @@ impl Check for C19Check {
                     invariant: "C19.I5-output-depends-on-schedule".into(),
                     signature: format!("vertices:bytes-differ{}", if a.real_rayon || b.real_rayon { ":real-rayon" } else { "" }),
                     detail: format!("CSV (from line 3) differs between configuration {:?} and {:?}", a, b),
-                    narrowed: mk_narrow(vec![a.clone(), b.clone()]),
+                    narrowed: mk_narrow(vec![with_trace(a, &decisions[w[0].0]), with_trace(b, &decisions[w[1].0])]),
                 });
             }
         }
@@ -720,6 +740,29 @@ impl Check for C19Check {
             }
         }
         for (ci, c) in scn.cfgs.iter().enumerate() {
+            if let Some(d) = &c.sched_replay {
+                let toks: Vec<&str> = d.split_whitespace().collect();
+                for keep in [0, toks.len() / 2, toks.len().saturating_sub(1)] {
+                    if keep < toks.len() {
+                        let mut s = scn.clone();
+                        s.cfgs[ci].sched_replay = Some(toks[..keep].join(" "));
+                        push(s);
+                    }
+                }
+                // turn single decisions into "inline / first option"
+                if toks.len() <= 12 {
+                    for k in 0..toks.len() {
+                        if !toks[k].ends_with('0') {
+                            let mut t: Vec<String> = toks.iter().map(|x| x.to_string()).collect();
+                            let kind: String = toks[k].chars().take_while(|c| c.is_ascii_alphabetic()).collect();
+                            t[k] = format!("{kind}0");
+                            let mut s = scn.clone();
+                            s.cfgs[ci].sched_replay = Some(t.join(" "));
+                            push(s);
+                        }
+                    }
+                }
+            }
             if c.threads > 1 {
                 let mut s = scn.clone();
                 s.cfgs[ci].threads = if c.threads > 2 { 2 } else { 1 };
